@@ -25,3 +25,6 @@ def run(chk):
     check_equiv(chk, "C03.R4", "bt/algos.py", "CapitalFlow", "__call__", CAPITAL_FLOW_REF, "capital-flow", "CapitalFlow adjusts the target by its amount as a flow that marks the tree stale")
     core_rules.accessor_rules(chk, "C03")
     core_rules.set_commissions_rules(chk, "C03")  # fees move the index only if the schedule reaches every strategy of the tree
+    from .c05 import settings_reach_every_node
+
+    settings_reach_every_node(chk, "C03")  # with fractional positions the index does not depend on the capital: the fractional mode has to reach every security
